@@ -410,6 +410,7 @@ class ConVecBuffer : public ConVecBufferBase<T, kMinBufferSize, kMaxVectorSize, 
       if (!this->buffers_[binfo.bucket + 1].load(std::memory_order_acquire)) {
         T* newBuf = cv::alloc<T>(binfo.bucketCapacity << 1);
         cacheUpdate(binfo.bucket + 1, newBuf);
+        DISPENSO_VERIF_POINT(::dispenso::verif::kCVecAllocBeforeStore);
         this->buffers_[binfo.bucket + 1].store(newBuf, std::memory_order_release);
         shouldDealloc_[binfo.bucket + 1] = true;
       }
@@ -427,6 +428,7 @@ class ConVecBuffer : public ConVecBufferBase<T, kMinBufferSize, kMaxVectorSize, 
       CacheUpdate&& cacheUpdate) {
     if (!this->buffers_[bucket].load(std::memory_order_acquire)) {
       cacheUpdate(bucket, allocBufs);
+      DISPENSO_VERIF_POINT(::dispenso::verif::kCVecAllocBeforeStore);
       this->buffers_[bucket].store(allocBufs, std::memory_order_release);
       allocBufs += cap;
       shouldDealloc_[bucket] = !firstAccounted;
